@@ -335,6 +335,16 @@ def discharge(P, ctxs, ob):
             an, ao = ax.lin(idx, g)
             ok = g.le(an, cn, -ao - 1)
         if ok and is_str:
+            # a bound returned by str::find / rfind on the same string is the start of a match: a char boundary
+            bounds = [T.strip(x) for x in (idx[4] if idx is not None and idx[0] == "agg" else [])]
+            def _found_in(bt):
+                if bt[0] == "field" and T.strip(bt[1])[0] == "downcast":
+                    src = T.strip(T.strip(bt[1])[1])
+                    if src[0] == "call" and src[1].endswith(("str>::find", "str>::rfind")) and src[2]:
+                        return A.sid(src[2][0]) == A.sid(cont)
+                return False
+            if bounds and all(_found_in(x) for x in bounds):
+                return True, "range within length; bound is a match position returned by find() on the same str (char boundary)", detail
             return False, "str slicing also needs char boundaries", detail
         if ok:
             return True, "range within length by dominating conditions", detail
